@@ -14,7 +14,8 @@ LEVEL_TEXT = ("Proof: Coq theorems, for all glyph sets / component depths / non-
               "correspondence at two levels: OTFPreProcessor's glyph set vs the Gallina in-place pass run in the visiting order observed on "
               "the real filter (exact rationals, point level; this also pins the behaviour for singular matrices, where the order matters) "
               "and compiled CFF/CFF2 outlines + hmtx vs the rounded model; the nested spec `resolve` is evaluated in Coq on the "
-              "implementation's output; quadratic glyphs are additionally checked against an independent segment-level reference.")
+              "implementation's output; quadratic glyphs are additionally checked against an independent segment-level reference."
+              " The list of default filters of the CFF pre-processor is NOT hand-modelled: OTFPreProcessor.initDefaultFilters is translated from /repo's current source into Gallina on every run (harness/pipeline_from_source.py -> Generated/Pipelines.v, fail-closed) and proved, for all option values, to be 'colour layers (colour fonts), decompose every composite, remove overlaps exactly when asked' -- naming an overlap backend alone changes nothing; the translation is compared with the real pre-processor objects over all option combinations.")
 LEVEL_NOTE = ("Trusted: Coq kernel; hand-written model of fontTools' DecomposingFilterPointPen/TransformPointPen/ReverseContourPointPen "
               "and T2CharStringPen rounding (validated by correspondence only); exact-rational arithmetic on dyadic inputs stands for "
               "IEEE doubles; charstring encode/decode, specialiser and subroutinisers are environment (C12). Theorems cover closed "
@@ -219,6 +220,8 @@ def designspace_section(ctx):
 
 
 def explore(ctx):
+    from harness.pipeline_check import pipeline_section
+    pipeline_section(ctx, "otf")
     renamed_section(ctx)
     designspace_section(ctx)
     import ufo2ft
